@@ -55,6 +55,9 @@ type Prog struct {
 	cg        *callGraph
 	viaMemo   map[*ssa.Function]ProvSet
 	viaBusy   map[*ssa.Function]bool
+	ctxMemo   map[any]ProvSet
+	ctxBusy   map[any]bool
+	ctxCut    bool
 }
 
 // fdotest and its sub-packages are the repository's own test harness shipped
